@@ -8,7 +8,9 @@ import json
 
 import gtirb_from_repo
 import irgen
+import content
 import protocheck
+from common import exc_name
 
 LEVEL = "proof"
 TRUSTED = ("the protobuf runtime's wire codec (Parse(Serialize(m)) = m, range checks, presence)",)
@@ -26,6 +28,35 @@ def run(ctx):
             continue
         protocheck.roundtrip_stream(ctx, g, batch, ir, auxinfo, bs, "RT%d" % i)
         ctx.case(repr(bs), len(bs) > 60)
+    # the file-name entry points (IR.save_protobuf / IR.load_protobuf) write and read the same bytes as the stream ones
+    import os
+    import tempfile
+    for i in range(4 if ctx.quick else 40):
+        ir, auxinfo = irgen.gen_ir(g, ctx.rng, cov)
+        if protocheck.is_d7(g, ir):
+            continue
+        fd, path = tempfile.mkstemp(suffix=".gtirb")
+        os.close(fd)
+        try:
+            ir.save_protobuf(path)
+            on_disk = open(path, "rb").read()
+            via_stream = protocheck.save_bytes(ir)
+            m1 = content.canon_msg(content.msg_to_sx(protocheck.parse_body(on_disk)))
+            m2 = content.canon_msg(content.msg_to_sx(protocheck.parse_body(via_stream)))
+            if on_disk[:8] != via_stream[:8] or m1 != m2:
+                ctx.add("oracle", "roundtrip:file-name-save", "IR.save_protobuf(path) writes another file than save_protobuf_file(stream)", {"file": on_disk.hex()})
+            ir2 = g.IR.load_protobuf(path)
+            c1 = content.canon_content(content.content_of(g, ir))
+            c2 = content.canon_content(content.content_of(g, ir2))
+            if c1 != c2:
+                ctx.add("oracle", "roundtrip:content", "IR.load_protobuf(path) of a file written by IR.save_protobuf(path) differs from the original at %s"
+                        % (protocheck.first_diff(c1, c2) or {}).get("path"), {"file": on_disk.hex()})
+            ctx.count("file_name_round_trips")
+            ctx.case("file-name:" + repr(on_disk), True)
+        except Exception as e:  # noqa: BLE001
+            ctx.add("oracle", "roundtrip:file-name-raised", "save_protobuf/load_protobuf by file name raised %s" % exc_name(g, e), {})
+        finally:
+            os.remove(path)
     # dedicated stream for the recorded finding: entry point in a later module
     def fixed_d7():
         ir = g.IR()
